@@ -184,6 +184,12 @@ func tagVariants(v *spec.View, el string, maxAttrs int, strict bool) []string {
 			single = append(single, kv{k, w})
 		}
 	}
+	if v.DataAttrs {
+		// well-formed data-* names (also with a second "data-" inside the name) are allowed on every allowed element
+		for _, k := range []string{"data-k", "data-meta-data-id", "data-x-1.y_z"} {
+			single = append(single, kv{k, "v1"})
+		}
+	}
 	for _, a := range single {
 		out = append(out, startTag(el, []html.Attribute{{Key: a.k, Val: a.v}}))
 	}
